@@ -276,6 +276,8 @@ var reqKinds = []reqKind{
 type c17seq struct {
 	Seq  []int  `json:"seq"`
 	Drop string `json:"drop,omitempty"` // "", "after:k", "header:k", "garbage:k"
+	// Dies: the terminate signal takes effect (sequences that end with the terminate request only)
+	Dies bool `json:"dies,omitempty"`
 	K    int    `json:"k,omitempty"`
 }
 
@@ -296,14 +298,26 @@ func c17handover(cs c17seq) (sig, detail string) {
 	inst := &scriptedInst{id: (os.Getpid()%100000)*10000 + instSeq%10000}
 	var killMu sync.Mutex
 	oldKill := kill
+	var r *Restarter
 	kill = func(pid int, sg syscall.Signal) error {
 		killMu.Lock()
 		defer killMu.Unlock()
 		inst.log("kill")
+		if cs.Dies && r != nil {
+			// the signal really arrives: the process's handler shuts the instance down, which closes the
+			// control socket and the children's connections, while the request handler is still running
+			go r.Shutdown()
+			select {
+			case <-r.quit:
+			case <-time.After(2 * time.Second):
+			}
+			time.Sleep(20 * time.Millisecond)
+		}
 		return nil
 	}
 	defer func() { kill = oldKill }()
-	r, err := New(inst)
+	var err error
+	r, err = New(inst)
 	if err != nil {
 		return "harness-restarter-new-failed", err.Error()
 	}
@@ -454,6 +468,17 @@ func c17sequences(env sched.Env) *sched.Report {
 		if len(seq) > 0 {
 			var cases []c17seq
 			cases = append(cases, c17seq{Seq: seq})
+			if reqKinds[seq[len(seq)-1]].call == "kill" {
+				terminates := 0
+				for _, k := range seq {
+					if reqKinds[k].call == "kill" {
+						terminates++
+					}
+				}
+				if terminates == 1 {
+					cases = append(cases, c17seq{Seq: seq, Dies: true})
+				}
+			}
 			if len(seq) <= 3 {
 				for k := 0; k <= len(seq); k++ {
 					cases = append(cases, c17seq{Seq: seq, Drop: "after", K: k}, c17seq{Seq: seq, Drop: "header", K: k}, c17seq{Seq: seq, Drop: "garbage", K: k})
